@@ -9,8 +9,9 @@
 
   A frame is the list of bulk-string arguments a client sent (`List Bytes`, command name first).
   The result is the canonical rendering of the Rust `Command` value: constructor name + the
-  flattened field tokens (`Cmd`), or the error (`Err`): the exact text, or `crash` where the
-  Rust code panics (index out of bounds in `SCAN … MATCH`, slice bounds in `EVAL s -1`).
+  flattened field tokens (`Cmd`), or the error (`Err`): the exact text (a `crash` outcome exists
+  for a panic of the Rust code; since the fixes of `SCAN … MATCH` and `EVAL s -1` no table entry
+  produces it).
 
   The grammar is TABLE DRIVEN: `table` lists one `Spec` per command name (arity rule, arity
   error text, body shape); sub-command families (`CONFIG GET` …) are two-level.  The dispatcher
@@ -18,7 +19,8 @@
   the theorems of `Props/C16.lean` are proved once over the table.
 
   Where the two RESP parsers differ the model follows `from_resp`; the differences are listed in
-  `zcArityErr` / `zcAclStubs` (and are findings of C16).
+  `zcArityErr` / `zcAclStubs` (both empty since the LPUSH/RPUSH/SADD texts and the ACL stubs were
+  aligned).
 
   Strings: Rust `String`s obtained by `String::from_utf8_lossy` are modelled as the UTF-8 bytes
   of the lossy string (`lossy`).  `to_uppercase()` is modelled exactly for ASCII and for the
@@ -313,7 +315,7 @@ inductive Lit where
   | getexEx | getexPx | getexExat | getexPxat
   | expireNx | expireGtLt
   | zaddPairs | limitMissing
-  | evalKeys | evalshaKeys
+  | evalKeys | evalshaKeys | evalNegKeys
   | lmoveFrom | lmoveTo
   | offsetRange | bitOffset | bitValue | incrNanInf
   | invalidBits
@@ -349,6 +351,7 @@ def Lit.text : Lit → Bytes
   | .limitMissing => s2b "LIMIT requires offset and count"
   | .evalKeys => s2b "EVAL wrong number of keys"
   | .evalshaKeys => s2b "EVALSHA wrong number of keys"
+  | .evalNegKeys => s2b "ERR Number of keys can't be negative"
   | .lmoveFrom => s2b "LMOVE wherefrom must be LEFT or RIGHT"
   | .lmoveTo => s2b "LMOVE whereto must be LEFT or RIGHT"
   | .offsetRange => s2b "ERR offset is out of range"
@@ -861,8 +864,8 @@ def zrangebyscore (offset count : Arg) (missing : Lit) (unk : Fmt) : List Bytes 
   | _ => .error .unreachable
 
 def scanOptTbl : List OptSpec :=
-  [ { kw := s2b "MATCH", vals := [aStr], missing := .crash },
-    { kw := s2b "COUNT", vals := [aInt], missing := .crash } ]
+  [ { kw := s2b "MATCH", vals := [aStr], missing := .err .syntax },
+    { kw := s2b "COUNT", vals := [aInt], missing := .err .syntax } ]
 
 /-- SCAN cursor … / HSCAN key cursor … / ZSCAN key cursor … -/
 def scan (ctor : Bytes) (withKey : Bool) (unk : Fmt) (args : List Bytes) : BRes :=
@@ -883,22 +886,20 @@ def sort : List Bytes → BRes
     .ok ⟨s2b "Sort", [.s (lossy k), s.opt1 0]⟩
   | _ => .error .unreachable
 
-/-- EVAL / EVALSHA script numkeys key… arg…; `numkeys as usize`, `3 + numkeys` wraps in release
-    builds, `elements[3..3 + numkeys]` panics when the wrapped end is below 3 -/
+/-- EVAL / EVALSHA script numkeys key… arg…; a negative `numkeys` is refused before the cast -/
 def eval (ctor : Bytes) (keysErr : Lit) : List Bytes → BRes
   | script :: nk :: rest => do
     let t ← aInt.extract nk
     match t with
     | .i n =>
-      let numkeys := asUsize n
-      let endIdx := (3 + numkeys) % two64       -- as an index into `elements` (name at 0)
-      if rest.length + 3 < endIdx then .error (.lit keysErr)
-      else if endIdx < 3 then .error .crash
+      if n < 0 then .error (.lit .evalNegKeys)
       else
-        let nkeys := endIdx - 3
-        let keys := (rest.take nkeys).map (fun a => Tok.s (lossy a))
-        let args := (rest.drop nkeys).map Tok.d
-        .ok ⟨ctor, [.s (lossy script), .len keys.length] ++ keys ++ [.len args.length] ++ args⟩
+        let numkeys := n.toNat
+        if rest.length < numkeys then .error (.lit keysErr)
+        else
+          let keys := (rest.take numkeys).map (fun a => Tok.s (lossy a))
+          let args := (rest.drop numkeys).map Tok.d
+          .ok ⟨ctor, [.s (lossy script), .len keys.length] ++ keys ++ [.len args.length] ++ args⟩
     | _ => .error .unreachable
   | _ => .error .unreachable
 
@@ -972,11 +973,12 @@ def luaSetOpts : List OptSpec :=
     { kw := s2b "EX", vals := [aIntE .luaSetExInt], missing := .err .luaSetEx },
     { kw := s2b "PX", vals := [aIntE .luaSetPxInt], missing := .err .luaSetPx } ]
 
-/-- no NX/XX conflict test, no KEEPTTL/EXAT/PXAT -/
+/-- no KEEPTTL/EXAT/PXAT -/
 def luaSet : List Bytes → BRes
   | k :: v :: opts => do
     let s ← scanOpts luaSetOpts (fun w => some (.fmt .luaUnknownSet w)) opts
-    .ok (mkSet (.s (lossy k)) (.d v) (s.opt1 3) (s.opt1 4) .none .none (s.has 0) (s.has 1) (s.has 2) false)
+    if s.has 0 && s.has 1 then .error (.lit .nxxx)
+    else .ok (mkSet (.s (lossy k)) (.d v) (s.opt1 3) (s.opt1 4) .none .none (s.has 0) (s.has 1) (s.has 2) false)
   | _ => .error .unreachable
 
 def luaExpire : List Bytes → BRes
